@@ -27,6 +27,7 @@ structure Env where
   eoi : Nat × Nat := (0, 0)            -- `mapped`: the end-of-input span
   ek : ErrKind := .rich
   defs : List G := []
+  memoOn : Bool := true               -- `false`: `memoized()` is the identity (grammars without memoized nodes)
   deriving Inhabited
 
 def utf8w (c : Nat) : Nat :=
@@ -339,7 +340,8 @@ def collectExactlyLoop (N : NextRunner) (env : Env) (m : Mode) (it : It) :
   | n + 1, st, ist, acc =>
     match N env m it st ist with
     | .some v st' ist' => collectExactlyLoop N env m it n st' ist' (v :: acc)
-    | .done st' _ => .fail st'            -- no pending error is recorded here
+    | .done st' _ =>                      -- the iterator ended early: report it at the current position
+      .fail (st'.addAlt env [.somethingElse] (st'.peek env) (env.mkSpan st'.pos st'.pos))
     | .fail st' => .fail st'
     | .panic w => .panic w
     | .oof => .oof
@@ -516,6 +518,7 @@ def step (R : Runner) (N : NextRunner) (K : MkRunner) (L : Nat) : Runner := fun 
   | .or_ a b => choiceTuple R env m st.save [a, b] st
   | .choice .tuple gs =>
     match gs with
+    | [] => .panic pIllTyped              -- `choice(())` does not exist
     | [g] => R env m g st
     | gs => choiceTuple R env m st.save gs st
   | .choice .slice gs =>
@@ -789,6 +792,7 @@ def step (R : Runner) (N : NextRunner) (K : MkRunner) (L : Nat) : Runner := fun 
     | .inl st' => .fail st'
   | .withState a => (R env m a { st with insp := [] }).restoreInsp st.insp
   | .memoized id a =>
+    if !env.memoOn then R env m a st else
     let key := (st.pos, id)
     match memoFind st.memo key with
     | some (some e) => .fail (St.addAltErr env st e.pos e.err)
